@@ -30,7 +30,7 @@
 #define POISON 777.25
 #define DOM 0.05L
 
-static long ncases(int tier) { return tier ? 1200000 : 40000; }
+static long ncases(int tier) { return tier ? 1200000 : 80000; }
 
 enum { MX_MEAN, MX_SCALE, MX_CELL, MX_RESMEAN, MX_RESSTAT, MX_APPLY_SAME, MX_APPLY_NEW, MX_COMPACT, MX_PAIR, MX_CS_AVG, MX_CS_SD, MX_CS_RMS, MX_CS_VAR, MX_CONSTCOL, MX_CONSTSCALE, NMX };
 static const char *MXNAME[NMX] = {
